@@ -1,8 +1,8 @@
-"""The function translator: regenerates lean/CollectionsC/Generated/Funcs.lean from the CURRENT text
-of the two smallest containers (constructors and destructors included), so that the theorems of
-Properties/C19Gen.lean and C12Gen.lean ("under the invariant the translated C function is free of
-undefined behaviour and agrees with the hand-written model function") are re-checked against what the
-code says now.  Editing a statement changes the generated definition and the theorem stops building.
+"""The function translator: regenerates lean/CollectionsC/Generated/Funcs<Name>.lean (one module per C file of
+TABLE: ring buffer, static pool, pqueue, array, deque, stack, queue) from the CURRENT text of those files
+(constructors and destructors included), so that the theorems of Properties/C19Gen, C12Gen, C10Gen, C01Gen,
+C05Gen and C09Gen ("under the invariant the translated C function is free of undefined behaviour and agrees
+with the hand-written model function") are re-checked against what the code says now.  Editing a statement changes the generated definition and the theorem stops building.
 
 Route: comment-stripped C text -> tokens -> recursive-descent parser -> a small type checker -> Lean.
 
@@ -51,6 +51,13 @@ Route: comment-stripped C text -> tokens -> recursive-descent parser -> a small 
    that loops, recurses or calls such a function has the extra parameter `fuel`.
  * MACROS of the translated file (`#define X v`, `#define F(x) body`) are expanded textually, exactly as the
    preprocessor does (no parentheses added); other directives than `#include` are refused.
+ * BIT OPERATIONS on the 64-bit unsigned types: `&`, `|`, `^`, `>>` are the `Nat` operations `&&&`, `|||`, `^^^`,
+   `>>>` (they cannot leave the range), `<<` is `wshl` (mod 2^64), `~` is `wnot`; a shift count of 64 or more is a
+   fault; the compound forms `&= |= ^= <<= >>=` are written out.  `#ifdef X` / `#ifndef X` / `#else` / `#endif`
+   blocks are resolved with the macro set of the build (`gcc -E -dM`, as Constants.lean: `ARCH_64` is undefined,
+   so `upper_pow_two` is the 32-bit smear).  `if (A && f(x) != OK) S` with an effectful call `f` is translated as
+   the nested `if`s C evaluates.  A parameter `void *(*cp)(void*)` is `Option (Nat → Nat)` (NULL test, call through
+   NULL is a fault); a `T **` parameter that is indexed or copied into is an array that is returned.
  * `float` is `Float32` (IEEE single, as on the target): conversions `Float32.ofNat` / `toUInt64`, the
    operators as they are; no property of floating point is assumed anywhere.  A comparator pointer
    `int (*cmp)(const void*, const void*)` is `Option (Nat → Nat → Int)`; with `elem=True` in TABLE a `void *`
@@ -62,8 +69,10 @@ lists; struct layout and `sizeof` values other than 8 for pointers and 64-bit in
 product of `calloc(n, size)` (the allocator's business); aliasing between different pointers; reads of
 uninitialised locals (they read as 0); `(size_t) <float>` outside the range of size_t (undefined in C,
 saturating here).
-NOT TRANSLATED: `src/cc_queue.c` / `src/cc_deque.c` (mask arithmetic `&`, not yet in the expression subset);
-in `cc_array.c` / `cc_stack.c` everything that takes a callback, builds a derived container or iterates
+NOT TRANSLATED: in `cc_deque.c` `add_at` / `remove_at` (their text is inside the subset — four `memmove` shapes
+each — but no agreement theorem has been written yet, so they are left out of TABLE), `replace_at`, the copies,
+filters, `index_of`, `contains`, `reverse`, `trim_capacity`, the iterators; in `cc_queue.c` `destroy_cb`,
+`foreach`, the iterator wrappers; in `cc_array.c` / `cc_stack.c` everything that takes a callback, builds a derived container or iterates
 (`destroy_cb`, `remove_all_free`, `subarray`, the copies, the filters, `contains_value`, `sort`, `map`, `reduce`,
 iterators); `src/memory/cc_dynamic_pool.c` (its `PageInfo` headers live inside raw allocator blocks and are
 reached by casts such as `(PageInfo*) pool->page` and `new_page + sizeof(PageInfo)`; `destroy`, `reset` and
@@ -97,10 +106,18 @@ TABLE = [
                 "cc_array_get_at", "cc_array_get_last", "cc_array_size", "cc_array_capacity",
                 "cc_array_trim_capacity", "cc_array_reverse", "cc_array_index_of", "cc_array_contains",
                 "cc_array_remove"]),
+    dict(file="src/cc_deque.c", struct="cc_deque_s", arrays=["buffer"], memory=None, elem=True, out="FuncsDeque",
+         funcs=["cc_deque_conf_init", "cc_deque_new_conf", "cc_deque_new", "cc_deque_destroy",
+                "cc_deque_add_first", "cc_deque_add_last", "cc_deque_remove_first", "cc_deque_remove_last",
+                "cc_deque_get_at", "cc_deque_get_first", "cc_deque_get_last", "cc_deque_size", "cc_deque_capacity"]),
     dict(file="src/cc_stack.c", struct="cc_stack_s", arrays=[], memory=None, elem=True, out="FuncsStack",
          imports=["FuncsArray"],
          funcs=["cc_stack_conf_init", "cc_stack_new_conf", "cc_stack_new", "cc_stack_destroy",
                 "cc_stack_push", "cc_stack_peek", "cc_stack_pop", "cc_stack_size"]),
+    dict(file="src/cc_queue.c", struct="cc_queue_s", arrays=[], memory=None, elem=True, out="FuncsQueue",
+         imports=["FuncsDeque"],
+         funcs=["cc_queue_conf_init", "cc_queue_new_conf", "cc_queue_new", "cc_queue_destroy",
+                "cc_queue_peek", "cc_queue_poll", "cc_queue_enqueue", "cc_queue_size"]),
 ]
 
 NAT64 = {"size_t", "uint64_t", "uintptr_t"}
@@ -112,7 +129,7 @@ SIZE_MOD = 2 ** 64
 LIBC = {"malloc": "alloc", "calloc": "calloc", "free": "free"}
 
 # ---- lexer ----------------------------------------------------------------------------
-TOK = re.compile(r"\s*(0[xX][0-9a-fA-F]+[uUlL]*|\d+[uUlL]*|[A-Za-z_]\w*|->|\+\+|--|&&|\|\||==|!=|<=|>=|\+=|-=|\*=|/=|%=|<<|>>"
+TOK = re.compile(r"\s*(0[xX][0-9a-fA-F]+[uUlL]*|\d+[uUlL]*|[A-Za-z_]\w*|->|\+\+|--|&&|\|\||==|!=|<<=|>>=|<=|>=|\+=|-=|\*=|/=|%=|&=|\|=|\^=|<<|>>"
                  r"|[-+*/%!=<>()\[\]{};,&.~?:^|])")
 
 
@@ -271,7 +288,7 @@ class Parser:
 
     def assign(self):
         a = self.lor()
-        if self.peek() in ("=", "+=", "-=", "*=", "/=", "%="):
+        if self.peek() in ("=", "+=", "-=", "*=", "/=", "%=", "&=", "|=", "^=", "<<=", ">>="):
             op = self.eat()
             b = self.assign()
             return ("assign", op, a, b)
@@ -294,13 +311,16 @@ class Parser:
         return self.binlevel(("||",), self.land)
 
     def land(self):
-        return self.binlevel(("&&",), self.bitlevel)
+        return self.binlevel(("&&",), self.bor)
 
-    def bitlevel(self):
-        a = self.equality()
-        if self.peek() in ("&", "|", "^"):
-            raise TErr(f"bit operator `{self.peek()}`")
-        return a
+    def bor(self):
+        return self.binlevel(("|",), self.bxor)
+
+    def bxor(self):
+        return self.binlevel(("^",), self.band)
+
+    def band(self):
+        return self.binlevel(("&",), self.equality)
 
     def equality(self):
         return self.binlevel(("==", "!="), self.relational)
@@ -309,10 +329,7 @@ class Parser:
         return self.binlevel(("<", ">", "<=", ">="), self.shift)
 
     def shift(self):
-        a = self.additive()
-        if self.peek() in ("<<", ">>"):
-            raise TErr("shift operator")
-        return a
+        return self.binlevel(("<<", ">>"), self.additive)
 
     def additive(self):
         return self.binlevel(("+", "-"), self.multiplicative)
@@ -474,6 +491,8 @@ def lean_ty(t):
             return "Option Triple"
         if t[0] == "cmp":
             return "Option (Nat → Nat → Int)"
+        if t[0] == "cb1":
+            return "Option (Nat → Nat)"
         if t[0] == "opt":
             return "Option Unit" if t[1] == "void" else f"Option {atomty(lean_ty(t[1]))}"
     return {"nat": "Nat", "int": "Int", "bool": "Bool", "ptr": "Ptr", "stat": "Nat", "arr": "List Nat",
@@ -795,7 +814,7 @@ class Emit:
         if k == "null":
             if want == "nat" and self.cfg["tdefs"].get("__elem__"):
                 return "0", "nat", None          # the NULL element handle
-            return "none", (want if isinstance(want, tuple) and want[0] in ("fn", "cmp") else "ptr"), None
+            return "none", (want if isinstance(want, tuple) and want[0] in ("fn", "cmp", "cb1") else "ptr"), None
         if k == "boollit":
             return e[1], "bool", None
         if k == "id":
@@ -869,6 +888,11 @@ class Emit:
                 return self.E(e[2], env, want)
             if op == "*":
                 raise TErr("reading through a pointer")
+            if op == "~":
+                x, xt, ok = self.E(e[2], env, "nat")
+                if xt in ("nat", "lit", "ulit"):
+                    return f"(wnot {x})", "nat", ok
+                raise TErr("`~` on an operand that is not an unsigned 64-bit integer")
             raise TErr(f"unary `{op}`")
         if k == "bin":
             return self.binop(e, env)
@@ -882,6 +906,12 @@ class Emit:
                 raise TErr("the two branches of `?:` are of different kinds")
             ok = conj(okc, conj(guard(c, oka), guard(f"!({c})", okb)))
             return f"(if {c} then {ta} else {tb})", tya, ok
+        if k == "call" and env.get(e[1]) == ("cb1",):
+            if len(e[2]) != 1:
+                raise TErr("callback called with other than 1 argument")
+            a, oka = self.coerce(e[2][0], env, "nat")
+            f = lean_ident(e[1])
+            return f"(({f}.getD id) {self.atom(a)})", "nat", conj(oka, f"{f}.isSome")
         if k == "call":
             f = e[1]
             s = self.sigs.get(f)
@@ -961,6 +991,8 @@ class Emit:
             return f"({ca} {op} {cb})", "bool", ok
         ta, tya, oka = self.E(a, env)
         tb, tyb, okb = self.E(b, env, tya if tya != "lit" else None)
+        if tya == "ptr" and ta == "none" and isinstance(tyb, tuple):
+            ta, tya, oka = self.E(a, env, tyb)
         if tya == "lit" and tyb != "lit":
             ta, tya, oka = self.E(a, env, tyb)
         if "ulit" in (tya, tyb):
@@ -979,6 +1011,12 @@ class Emit:
             else:
                 tb, tyb = f"(castSizeT {tb})", "nat"
         ok = conj(oka, okb)
+        if op in ("==", "!=") and any(isinstance(t, tuple) and t[0] in ("cb1", "cmp") for t in (tya, tyb)):
+            # a callback pointer compared with NULL
+            x = ta if tb == "none" else tb if ta == "none" else None
+            if x is None:
+                raise TErr("comparison of two function pointers")
+            return (f"{x}.isNone" if op == "==" else f"{x}.isSome"), "bool", ok
         if "float" in (tya, tyb):
             if tya == "nat":
                 ta, tya = f"(Float32.ofNat {ta})", "float"
@@ -1004,6 +1042,12 @@ class Emit:
             if op in ("/", "%"):
                 nz = None if re.match(r"^[1-9]\d*$", tb) else f"decide ({tb} ≠ 0)"
                 return f"({ta} {op} {tb})", "nat", conj(ok, nz)
+            if op in ("&", "|", "^"):
+                return f"({ta} {dict(zip('&|^', ('&&&', '|||', '^^^')))[op]} {tb})", "nat", ok
+            if op in ("<<", ">>"):
+                # a shift count of 64 or more is undefined
+                small = None if (re.match(r"^\d+$", tb) and int(tb) < 64) else f"decide ({tb} < 64)"
+                return (f"(wshl {ta} {tb})" if op == "<<" else f"({ta} >>> {tb})"), "nat", conj(ok, small)
         if tya == "int" and tyb == "int" and op in ("+", "-", "*"):
             r = f"({ta} {op} {tb})"
             return r, "int", conj(ok, f"intOk {r}")
@@ -1031,7 +1075,7 @@ class Emit:
             return f"decide ({t} ≠ 0)", ok
         if ty == "ptr" or (isinstance(ty, tuple) and ty[0] == "fn"):
             return f"decide ({t} ≠ none)", ok
-        if ty == ("cmp",):
+        if ty in (("cmp",), ("cb1",)):
             return f"{t}.isSome", ok
         raise TErr("truth value of this expression (a struct or array pointer whose NULL-ness is not tracked)")
 
@@ -1082,6 +1126,14 @@ class Emit:
                     ok = conj(ok, lean_ident(a[1] + "_nn"))
                 ok = conj(ok, self.live(v, env))
                 out.append(lean_ident(v[1]))
+            elif pt == "arr":
+                t, ty, o = self.E(a, env)
+                if ty != "arr" or not (a[0] == "id" or (a[0] == "arrow" and a[1][0] == "id")):
+                    raise TErr(f"argument `{pn}` of `{s.name}` is not an array variable or field")
+                if a[0] == "id" and a[1] + "_nn" in env:
+                    o = conj(o, lean_ident(a[1] + "_nn"))
+                ok = conj(conj(ok, o), self.live(a, env))
+                out.append(t)
             elif isinstance(pt, tuple) and pt[0] == "out":
                 if outs_to is not None and a[0] == "un" and a[1] == "&" and a[2][0] == "id" and env.get(a[2][1]) == pt[1]:
                     outs_to[pn] = ("local", a[2][1])       # `&x` of a local: written only when the callee stores
@@ -1223,6 +1275,15 @@ class Emit:
             if self.is_alias_store(x):
                 found[0] = True
         walk_exprs(s, visit)
+        return found[0]
+
+    def contains_effect(self, e):
+        found = [False]
+
+        def visit(x):
+            if self.sibling_effect(x) or x[0] in ("assign", "pre", "post", "callp"):
+                found[0] = True
+        walk_exprs(e, visit)
         return found[0]
 
     def sibling_effect(self, e):
@@ -1374,7 +1435,7 @@ class Emit:
         if k == "assign":
             op, lhs, rhs = e[1], e[2], e[3]
             if op != "=":
-                rhs = ("bin", op[0], lhs, rhs)
+                rhs = ("bin", op[:-1], lhs, rhs)
             if self.sibling_effect(rhs):
                 return self.do_call(rhs, env, lhs)
             if rhs[0] == "callp":
@@ -1608,6 +1669,16 @@ class Emit:
                 return self.seq([("expr", c[2]), ("if", ("un", "!", c[2][2]), s1, s2)] + rest, env, k, ind)
             if c[0] == "bin" and c[1] in gg.CMP and c[2][0] == "assign":
                 return self.seq([("expr", c[2]), ("if", ("bin", c[1], c[2][2], c[3]), s1, s2)] + rest, env, k, ind)
+            if c[0] == "bin" and c[1] == "&&" and s2 is None and self.contains_effect(c[3]) and not self.contains_effect(c[2]):
+                # `if (A && f(x) != OK) S` with a call that has effects: C evaluates it only when A holds
+                return self.seq([("if", c[2], ("if", c[3], s1, None), None)] + rest, env, k, ind)
+            if c[0] == "bin" and c[1] in gg.CMP and self.sibling_effect(c[2]):
+                rt = self.sigs[c[2][1]].ret
+                tyw = {"stat": (("enum cc_stat",), 0), "nat": (("size_t",), 0), "bool": (("bool",), 0), "int": (("int",), 0)}.get(rt)
+                if tyw is None:
+                    raise TErr("comparison with the result of a call that has effects")
+                tmp = self.fresh(env, "t")
+                return self.seq([("decl", tyw, tmp, c[2]), ("if", ("bin", c[1], ("id", tmp), c[3]), s1, s2)] + rest, env, k, ind)
             ctext, cok = self.cond(c, env)
             head = [pad + l for l in self.chk(cok)]
             if has_jump(s1) or has_jump(s2):
@@ -1797,6 +1868,39 @@ class Emit:
 
 # ---- per file --------------------------------------------------------------------------------------------
 
+def resolve_ifdefs(repo, f, txt):
+    """`#ifdef X` / `#ifndef X` / `#else` / `#endif` (not nested): keeps the branch the compiler takes with the
+    preprocessor configuration of the harness (`gcc -E -dM` on the file says whether X is defined)"""
+    if not re.search(r"^[ \t]*#[ \t]*if(n?)def\b", txt, re.M):
+        return txt
+    import gen_constants
+    out, state = [], None          # state: None outside, else [keep_now, seen_else, keep_if]
+    for line in txt.split("\n"):
+        m = re.match(r"^[ \t]*#[ \t]*(ifdef|ifndef|else|endif)\b[ \t]*(\w*)", line)
+        if m:
+            d, name = m.group(1), m.group(2)
+            if d in ("ifdef", "ifndef"):
+                if state is not None:
+                    raise TErr("nested conditional compilation")
+                defined = gen_constants.macro_text(str(repo), f, name) is not None
+                keep = defined if d == "ifdef" else not defined
+                state = [keep, False, keep]
+            elif d == "else":
+                if state is None or state[1]:
+                    raise TErr("`#else` without `#ifdef`")
+                state = [not state[2], True, state[2]]
+            else:
+                if state is None:
+                    raise TErr("`#endif` without `#ifdef`")
+                state = None
+            out.append("")
+            continue
+        out.append(line if (state is None or state[0]) else "")
+    if state is not None:
+        raise TErr("unterminated `#ifdef`")
+    return "\n".join(out)
+
+
 def file_macros(txt):
     """`#define`s of the file: {name: (params or None, body tokens)}; other directives than #include are refused"""
     txt = re.sub(r"\\\n", " ", txt)
@@ -1984,7 +2088,8 @@ def return_type_text(txt, fname):
 
 def split_type(text):
     stars = text.count("*")
-    words = [w for w in text.replace("*", " ").split() if w not in ("const", "static", "inline", "extern")]
+    words = [w for w in text.replace("*", " ").split()
+             if w not in ("const", "static", "inline", "extern", "INLINE", "FORCE_INLINE")]
     out, i = [], 0
     while i < len(words):
         if words[i] in ("enum", "struct") and i + 1 < len(words):
@@ -2035,7 +2140,7 @@ def one_file(repo, cfg, consts):
         p = Path(repo, f)
         if not p.exists():
             raise TErr(f"{f} does not exist")
-        txt = gg.strip_comments(p.read_text(errors="replace"))
+        txt = resolve_ifdefs(repo, f, gg.strip_comments(p.read_text(errors="replace")))
         macros = file_macros(txt)
         alltd = typedefs_of(repo, None)
         # the structs the file works with: its own, and those whose typedef name it mentions
@@ -2105,6 +2210,10 @@ def one_file(repo, cfg, consts):
             if cpm:
                 params.append((cpm.group(1), ("cmp",)))
                 continue
+            cbm = re.match(r"^void\s*\*\s*\(\s*\*\s*(\w+)\s*\)\s*\(\s*void\s*\*\s*\w*\s*\)$", part)
+            if cbm:
+                params.append((cbm.group(1), ("cb1",)))
+                continue
             mm = re.match(r"^(.*?)(\w+)$", part)
             if not mm or not mm.group(1).strip() or "(" in part:
                 raise TErr(f"parameter `{part}`")
@@ -2115,6 +2224,19 @@ def one_file(repo, cfg, consts):
         items = ps.block_items()
         if ps.peek() is not None:
             raise TErr(f"unexpected `{ps.peek()}`")
+        # a `T **x` parameter that is indexed or handed to memcpy/memmove is an array, not an out-parameter
+        used_as_array = set()
+
+        def visit(x):
+            if x[0] == "index" and x[1][0] == "id":
+                used_as_array.add(x[1][1])
+            if x[0] == "call" and x[1] in ("memcpy", "memmove"):
+                for a in x[2][:2]:
+                    if a[0] == "id":
+                        used_as_array.add(a[1])
+        for st in items:
+            walk_exprs(st, visit)
+        params = [(n, "arr" if (t == ("out", "nat") and n in used_as_array) else t) for n, t in params]
         return Sig(fn, ret, params, items)
 
     work = list(cfg["funcs"])
@@ -2149,7 +2271,7 @@ def one_file(repo, cfg, consts):
 
     # pass 2: which struct parameters a function may modify / whether it allocates (fixpoint over calls)
     def direct(s):
-        sp = [n for n, t in s.params if isinstance(t, tuple) and t[0] == "sp"]
+        sp = [n for n, t in s.params if (isinstance(t, tuple) and t[0] == "sp") or t == "arr"]
         mut, mem = set(), [False]
 
         def visit(x):
@@ -2241,7 +2363,8 @@ def one_file(repo, cfg, consts):
                         except TErr:
                             continue
                         if pn in c.mut and a[0] in ("id", "arrow") and rv in dict(s.params) and rv not in s.mut \
-                                and isinstance(dict(s.params)[rv], tuple) and dict(s.params)[rv][0] == "sp":
+                                and ((isinstance(dict(s.params)[rv], tuple) and dict(s.params)[rv][0] == "sp")
+                                     or dict(s.params)[rv] == "arr"):
                             s.mut = [n for n, _ in s.params if n in s.mut or n == rv]
                             changed = True
             for st in s.body:
